@@ -166,7 +166,8 @@ CHECKS = {
              'request environments, conditions; vverdict correspondence on 17k policies) and C15_policy_sound states the property itself for accepted policies. The '
              'conformance checkers (entity.go, request.go, check_value.go) are modelled too (Impl/Conform.v, `conform` correspondence on Validator.Entity / Entities / Request verdicts): check_value decides '
              'type inhabitation exactly, what Entities / Request accept satisfies env_ok / request_env / actions_conform / store_types_known, and C15_end_to_end composes the three: policy accepted, store '
-             'accepted, request accepted => no type error. Direct oracle: random schemas x typed and hazard policies x conforming data.',
+             'accepted, request accepted => no type error. The extension signatures are TRANSLATED: Generated/Tables.tc_ext_table is read off ext_funcs.go on every run and the model\'s ext_sig equals a lookup in it for every name '
+             '(C15_ext_signatures_are_the_codes), with the same functions and arities as the evaluator\'s table (C15_ext_functions_same_as_evaluator). Direct oracle: random schemas x typed and hazard policies x conforming data.',
         note=TB + 'Hypotheses of the strict theorem: record types of the schema have distinct keys; attribute names shorter than 10^39 bytes (model artifact); '
              'no hypothesis on the data beyond conformance as Validator.Entity / Validator.Request decide it (action entities: parents = closure of the declared groups). The proof found F41, F42, F43 (fixed). '
              'F29 is a known finding.',
